@@ -123,6 +123,8 @@ class BufferingEDXMLEventMerger(EDXMLPushFilter):
         self.__hash_buffer = {}
 
     def _close(self):
+        # Output the events that are still in the buffer.
+        self._flush_buffer()
         super()._close()
         log.info(f"Processed {self.__num_processed} events, merged {self.__num_merged}.")
 
